@@ -153,6 +153,18 @@ def check_corpus(case):
         n += 1
         if not judge_its(G, H, its, fails, tag):
             break
+        if tag == "identity":
+            # conversions hand out independent objects: edit the returned graphs, convert the same string again
+            G1, H1 = rsmi_to_graph(v)
+            for g in (G1, H1):
+                for x in list(g.nodes):
+                    g.nodes[x]["charge"] = 9
+                g.remove_edges_from(list(g.edges)[:1])
+            G2, H2 = rsmi_to_graph(v)
+            its2x = rsmi_to_its(v)
+            n += 2
+            if not judge_its(G2, H2, its2x, fails, tag + "/after_edit_of_earlier_result") or not judge_its(G, H, its2x, fails, tag + "/after_edit_of_earlier_result"):
+                break
         judge_decompose(G, H, its, fails, tag, shared_only=False)
         if fails:
             break
